@@ -29,7 +29,8 @@ REPO_BINS = ['sccache']
 THEOREMS = ['C20_tcp_singleton', 'C20_abstract_singleton', 'C20_uds_singleton', 'C20_uds_unlocked_refuted',
             'C20_uds_retry_needs_timing', 'C20_startup_terminates', 'C20_idle_not_before', 'C20_idle_exact', 'C20_stop_waits',
             'C20_started_server_report_proceeds', 'C20_late_client_cold_starts', 'C20_not_serving_refuses',
-            'C20_cut_connection_falls_back']
+            'C20_cut_connection_falls_back', 'C20_addresses_do_not_interfere', 'C20_lock_name_injective',
+            'C20_shared_lock_name_refuted', 'C20_exit_ends_connections_orderly']
 ASSUMPTIONS = [
     'kernel semantics as stated in Model/Startup.v: bind on a TCP port / abstract socket name is exclusive and the name is released when its owner exits; bind on a socket PATH fails iff the directory entry exists; unlink removes the entry but not the listening socket behind it; flock is exclusive and released at process exit',
     'bind+listen of one listener, and each of connect / unlink / flock / the start-up notification, are atomic steps',
@@ -175,7 +176,7 @@ def free_port():
 class World:
     """One scratch directory = one address + one cache dir."""
 
-    def __init__(self, kind, idle_s=120, tag='r', spelling=None):
+    def __init__(self, kind, idle_s=120, tag='r', spelling=None, sock_path=None):
         self.kind = kind
         self.rel = None
         self.base = tempfile.mkdtemp(prefix='c20%s-' % tag, dir=scratch_root())
@@ -198,6 +199,9 @@ class World:
             os.symlink('real', os.path.join(self.base, 'run', 'current'))
             self.rel = rel
             self.env['SCCACHE_SERVER_UDS'] = self.base + '/' + rel
+            if sock_path:
+                self.rel = None
+                self.env['SCCACHE_SERVER_UDS'] = sock_path
         elif kind == 'abstract':
             self.env['SCCACHE_SERVER_UDS'] = '\\x00c20-' + os.path.basename(self.base)
         else:
@@ -227,6 +231,17 @@ def reference_object(d):
     return rc.returncode == 0
 
 
+def make_slow_once_cc(base, delay):
+    """A gcc wrapper whose FIRST compile (-c) sleeps: the server's run of it is slow, the client's local fall-back is not."""
+    p = os.path.join(base, 'slowonce')
+    mark = os.path.join(base, 'slowonce.mark')
+    open(p, 'w').write('#!/bin/sh\n'
+                       'for a in "$@"; do case "$a" in -c) if [ -n "$C20_SLOW" ] && [ ! -e "%s" ]; then : > "%s"; sleep %s; fi;; esac; done\n'
+                       'exec gcc "$@"\n' % (mark, mark, delay))
+    os.chmod(p, 0o755)
+    return p
+
+
 def make_slow_cc(base):
     """A wrapper around the real gcc that sleeps first when it is asked to compile (not when it is probed)."""
     p = os.path.join(base, 'slowcc')
@@ -251,9 +266,9 @@ def make_slow_detect_cc(base, delay):
 
 # ------------------------------------------------------------------ the race
 
-def run_race(binp, kind, k, stale=False, timeout=150, spelling=None):
+def run_race(binp, kind, k, stale=False, timeout=150, spelling=None, world=None):
     """k clients released together against a fresh address.  Returns the observation dict."""
-    w = World(kind, spelling=spelling)
+    w = world or World(kind, spelling=spelling)
     obs = {'kind': kind, 'k': k, 'stale': stale, 'spelling': spelling, 'rel': w.rel}
     try:
         if stale and kind == 'uds':
@@ -325,8 +340,14 @@ def run_race(binp, kind, k, stale=False, timeout=150, spelling=None):
             obs['stats_err'] = st.stderr.decode('utf-8', 'replace')[-300:]
         if kind == 'uds':
             obs['socket_exists'] = os.path.exists(w.env['SCCACHE_SERVER_UDS'])
+            obs['sock_path'] = w.env['SCCACHE_SERVER_UDS']
+            try:
+                obs['sock_dir'] = sorted(os.listdir(os.path.dirname(w.env['SCCACHE_SERVER_UDS'])))
+            except OSError:
+                obs['sock_dir'] = []
     finally:
-        w.close()
+        if world is None:
+            w.close()
     return obs
 
 
@@ -550,9 +571,9 @@ def classify_race(obs, v):
     return None
 
 
-def do_race(rep, known, binp, kind, k, stale=False, spelling=None):
+def do_race(rep, known, binp, kind, k, stale=False, spelling=None, world=None, label=''):
     consts = rep.consts
-    obs = run_race(binp, kind, k, stale, spelling=spelling)
+    obs = run_race(binp, kind, k, stale, spelling=spelling, world=world)
     # the model variant is chosen from the SOURCE: without the lock call the faithful model is uds_nolock
     mkind = 'uds_nolock' if (kind == 'uds' and not consts.get('uds_locked', True)) else kind
     case, stuck, cseq, sseq, cphase = race_case(obs, consts, mkind)
@@ -568,6 +589,15 @@ def do_race(rep, known, binp, kind, k, stale=False, spelling=None):
     if nspawn > 1:
         rep.distinct.add('race:%s:%d:%s' % (kind, k, sx.dumps(case)))
     vs = race_monitor(obs, finals)
+    if kind == 'uds' and obs.get('sock_path') and obs['live_servers']:
+        # the lock file of this address is the one the model names: <path> with ".lock" appended
+        want = bytes(pipeline.parse_out(model_run('lockname', [obs['sock_path'].encode()])[0]))
+        rep.evaluations += 1
+        if os.path.basename(want.decode('latin-1')) not in obs.get('sock_dir', []):
+            vs.append('the server of %s holds no lock file named %s (directory: %s): addresses that differ only in what '
+                      'follows the last "." would share a lock' % (os.path.basename(obs['sock_path']), os.path.basename(want.decode('latin-1')), obs.get('sock_dir')))
+    if label:
+        vs = ['[%s] %s' % (label, v) for v in vs]
     for v in vs[:3]:
         rep.violation('property', 'race', case, '%s%s, k=%d%s: %s' % (kind, ' spelled <dir>/%s' % obs['rel'] if spelling else '', k, ', stale socket' if stale else '', v))
     mout = pipeline.parse_out(model_run('race', [case])[0])
@@ -629,6 +659,43 @@ def do_race(rep, known, binp, kind, k, stale=False, spelling=None):
                  % (kind, k, ' (%s)' % spelling if spelling else '', nspawn, holder, 'all ok' if all(f == 'done' for f in finals) else finals,
                     'accepted' if ok else 'NOT accepted', len(case[4]), obs.get('wall_s', 0)))
     return ok and not vs, obs, case
+
+
+# ------------------------------------------------------------------ two addresses at once
+
+def do_two_addresses(rep, known, binp, k, names=('b.debug', 'b.release')):
+    """Two Unix-socket addresses in ONE directory whose names differ only after the last '.', used at the same time:
+    a cold start for the first, then — its server alive — a cold start for the second, then the first again.
+    One server per address, and they do not get in each other's way."""
+    wa = World('uds', tag='m')
+    d = os.path.join(wa.base, 'run', 'real')
+    wa.env['SCCACHE_SERVER_UDS'] = os.path.join(d, names[0])
+    wa.rel = None
+    wb = World('uds', tag='n', sock_path=os.path.join(d, names[1]))
+    try:
+        ok1, oa, ca = do_race(rep, known, binp, 'uds', k, world=wa, label='address %s, nothing else running' % names[0])
+        ok2, ob, cb = do_race(rep, known, binp, 'uds', k, world=wb, label='address %s while a server for %s is alive' % (names[1], names[0]))
+        # both servers are alive now; each address still has exactly its own
+        la, lb = live_servers(wa.cache), live_servers(wb.cache)
+        rep.evaluations += 1
+        rep.count('multi.two_addresses')
+        rep.distinct.add('multi:%s:%s:%d' % (names[0], names[1], k))
+        # the model, in the COMMON world: the two recorded traces one after the other
+        evs = [[names[0].encode()] + e[:2] for e in ca[4]] + [[names[1].encode()] + e[:2] for e in cb[4]]
+        mcase = [b'uds', rep.consts['retries'], k, [names[0].encode(), names[1].encode()], evs]
+        mout = pipeline.parse_out(model_run('multi', [mcase])[0])
+        m_live = [len(x[3]) for x in mout] if mout and all(isinstance(x, list) and len(x) > 4 for x in mout) else None
+        o_live = [len(la), len(lb)]
+        if ok1 and ok2 and o_live != [1, 1]:
+            rep.violation('property', 'race', mcase, 'two addresses %s / %s in one directory: live servers per address %s (expected one each)' % (names[0], names[1], o_live))
+        elif ok1 and ok2 and m_live != o_live:
+            rep.violation('correspondence', 'race', mcase, 'two addresses: the model in the common world predicts %s live servers per address, observed %s' % (m_live, o_live))
+        elif ok1 and ok2:
+            rep.traces += 1
+        return ok1 and ok2
+    finally:
+        wa.close()
+        wb.close()
 
 
 # ------------------------------------------------------------------ life cycle legs
@@ -746,12 +813,12 @@ def life_stop(rep, binp, kind, delay, cap_expected=False, late_client=False):
     vs = []
     cap = rep.consts['cap_s']
     try:
-        slow = make_slow_cc(w.base)
+        slow = make_slow_once_cc(w.base, delay) if cap_expected else make_slow_cc(w.base)
         t0 = time.time()
         p0 = compile_once(binp, w, 0)           # starts the server, warms the compiler detection for gcc
         pw = compile_once(binp, w, 3, cc=slow)  # ... and for the wrapper (no delay)
         t_req = time.time()
-        p1 = compile_once(binp, w, 1, cc=slow, extra_env={'C20_DELAY': str(delay)}, wait=False)
+        p1 = compile_once(binp, w, 1, cc=slow, extra_env={'C20_DELAY': str(delay), 'C20_SLOW': '1'}, wait=False)
         time.sleep(1.0)
         t_stop = time.time()                    # before the stop request is sent
         env = dict(w.env, SCCACHE_LOG='off')
@@ -929,7 +996,7 @@ def wire_frame(payload):
     return struct.pack('>I', len(payload)) + payload
 
 
-def cut_server(sock, cut, rc, nerr):
+def cut_server(sock, cut, rc, nerr, reset=False):
     """Plays a server whose process ends while it writes the result: CompileStarted, then `cut` bytes of the
     CompileFinished frame, then the connection is closed."""
     def rd(c, n):
@@ -947,10 +1014,16 @@ def cut_server(sock, cut, rc, nerr):
         rd(c, n)
         c.sendall(wire_frame(bincode_started()))
         c.sendall(wire_frame(bincode_finished(rc, nerr))[:cut])
-        try:
-            c.shutdown(socket.SHUT_RDWR)
-        except OSError:
-            pass
+        if reset:
+            # an ABORTING close: zero linger makes close() send RST instead of FIN (the client has had time to read
+            # what was sent, so the reset is what its NEXT read meets)
+            time.sleep(0.3)
+            c.setsockopt(socket.SOL_SOCKET, socket.SO_LINGER, struct.pack('ii', 1, 0))
+        else:
+            try:
+                c.shutdown(socket.SHUT_RDWR)
+            except OSError:
+                pass
         c.close()
     except Exception:
         pass
@@ -958,7 +1031,7 @@ def cut_server(sock, cut, rc, nerr):
         sock.close()
 
 
-def do_cut(rep, binp, cut, rc=0, nerr=1216):
+def do_cut(rep, binp, cut, rc=0, nerr=1216, reset=False):
     base = tempfile.mkdtemp(prefix='c20c-', dir=scratch_root())
     try:
         srv = socket.socket()
@@ -966,7 +1039,7 @@ def do_cut(rep, binp, cut, rc=0, nerr=1216):
         srv.listen(1)
         srv.settimeout(30)
         port = srv.getsockname()[1]
-        th = threading.Thread(target=cut_server, args=(srv, cut, rc, nerr), daemon=True)
+        th = threading.Thread(target=cut_server, args=(srv, cut, rc, nerr, reset), daemon=True)
         th.start()
         d = os.path.join(base, 'c')
         os.makedirs(d)
@@ -986,24 +1059,24 @@ def do_cut(rep, binp, cut, rc=0, nerr=1216):
         else:
             o = ['error']
         flen = len(wire_frame(bincode_finished(rc, nerr)))
-        case = [cut, rc, nerr]
+        case = [cut, rc, nerr] + ([b'reset'] if reset else [])
         mout = pipeline.parse_out(model_run('cut', [case])[0])
         m = [x.decode() if isinstance(x, bytes) else x for x in mout[0]] if mout and isinstance(mout[0], list) else ['?']
         rep.evaluations += 1
         where = 'boundary' if cut == 0 else 'in-header' if cut < 4 else 'after-header' if cut == 4 else 'whole' if cut >= flen else 'in-payload'
-        rep.count('cut.' + where)
-        rep.distinct.add('cut:%d' % cut)
+        rep.count('cut.' + where + ('.reset' if reset else ''))
+        rep.distinct.add('cut:%d%s' % (cut, ':reset' if reset else ''))
         rep.legs.setdefault('cut', {'runs': 0, 'agree': 0})
         rep.legs['cut']['runs'] += 1
-        if cut < flen and o != ['local']:
+        if cut < flen and o != ['local'] and not reset:
             rep.violation('property', 'cut', case,
                           'the server went away after %d of %d bytes of the CompileFinished frame (%s): the client did not fall back to a '
                           'correct local compile (rc %d, object %s): %s'
                           % (cut, flen, where, p.returncode, 'identical' if same else 'missing/different',
                              p.stderr.decode('utf-8', 'replace').strip().replace('\n', ' | ')[-300:]))
         elif m != o or (len(mout) > 1 and mout[1] != flen):
-            rep.violation('correspondence', 'cut', case, 'cut at %d: model %s (frame %s bytes), client %s (frame %d bytes)'
-                          % (cut, m, mout[1] if len(mout) > 1 else '?', o, flen))
+            rep.violation('correspondence', 'cut', case, 'cut at %d%s: model %s (frame %s bytes), client %s (frame %d bytes)'
+                          % (cut, ' ended by RST' if reset else '', m, mout[1] if len(mout) > 1 else '?', o, flen))
         else:
             rep.legs['cut']['agree'] += 1
             rep.traces += 1
@@ -1057,7 +1130,7 @@ def extra(rep, known):
     # ( case expected-model-output ) pairs
     bad = []
     npairs = 0
-    for leg in ('life', 'cut', 'report'):
+    for leg in ('life', 'cut', 'report', 'multi', 'lockname'):
         pairs = pipeline.corpus_cases(ID, leg)
         if not pairs:
             continue
@@ -1103,16 +1176,38 @@ def extra(rep, known):
     if rep.tier != 'thorough':
         uds_stop_thread = threading.Thread(target=run_uds_stop, daemon=True)
         uds_stop_thread.start()
+
+    # a compile that OUTLASTS the shutdown cap on a TCP address: the server exits with the request in flight, the
+    # kernel ends the connection, the client must fall back (the slow run happens once: the fall-back is quick)
+    def run_tcp_cap():
+        try:
+            life_stop(rep, binp, 'tcp', rep.consts['cap_s'] + 3, cap_expected=True)
+            late_box['tcp_cap'] = True
+        except Exception as e:
+            late_box['tcp_cap_e'] = repr(e)
+    tcp_cap_thread = threading.Thread(target=run_tcp_cap, daemon=True)
+    tcp_cap_thread.start()
     for kind, k, stale, sp in spell + plan:
         ok, obs, case = do_race(rep, known, binp, kind, k, stale, spelling=sp)
         if not ok and rep.tier == 'quick' and sum(1 for v in rep.violations) >= 3:
             break
+    # two addresses in one directory that differ only after the last '.', in use at the same time
+    do_two_addresses(rep, known, binp, 4)
+    if rep.tier == 'thorough':
+        do_two_addresses(rep, known, binp, 16, names=('srv.1', 'srv.2'))
+        do_two_addresses(rep, known, binp, 2, names=('sccache.gcc', 'sccache.clang'))
+    rep.rule.append('multi: two Unix-socket addresses in one directory (b.debug / b.release), cold start of the second while the '
+                    'server of the first is alive; per address one server; the lock file is <path>.lock as the model names it')
     rep.rule.append('report: the same cold starts with the Unix socket spelled through a symlinked directory, with `..`, with `//` '
                     'and `.` (1 client = the one that starts the server, and races); the model says the spawner proceeds')
     # connections cut on a frame boundary, inside the length header, right after it, inside the payload
     flen = len(wire_frame(bincode_finished(0, 1216)))
     for cut in [0, 2, 4, 5, 30, flen - 1, flen] + ([1, 3, 17, 600, flen - 5] if rep.tier == 'thorough' else []):
         do_cut(rep, binp, cut)
+    # the same cut points ended by an ABORTING close (RST): per the model the client then does NOT fall back (error,
+    # unless SCCACHE_IGNORE_SERVER_IO_ERROR=1) — which is why the server must close orderly (C20_exit_ends_connections_orderly)
+    for cut in [0, 2, 4, 30] + ([5, 600, flen - 1] if rep.tier == 'thorough' else []):
+        do_cut(rep, binp, cut, reset=True)
     rep.rule.append('cut: a stand-in server answers CompileStarted and closes after k bytes of the CompileFinished frame, k on the '
                     'boundary / in the header / after the header / in the payload / whole frame; real client vs Model.Client.client')
     rep.rule.append('race: k in {2,4,8,16,32} real clients x {tcp, unix path, abstract} (+ stale socket file), released by one open() of a '
@@ -1121,6 +1216,9 @@ def extra(rep, known):
     life_idle(rep, binp, 'uds', 2)
     life_stop(rep, binp, 'tcp', 3, late_client=True)
     late_thread.join(120)
+    tcp_cap_thread.join(180)
+    if not late_box.get('tcp_cap'):
+        rep.oblige('life: compile outlasting the cap on a TCP address ran', False, late_box.get('tcp_cap_e', 'did not finish within 180 s'))
     if uds_stop_thread is not None:
         uds_stop_thread.join(120)
         if not late_box.get('uds_stop'):
@@ -1133,6 +1231,7 @@ def extra(rep, known):
         life_idle(rep, binp, 'tcp', 3)
         life_stop(rep, binp, 'uds', 4, late_client=True)
         life_stop(rep, binp, 'abstract', rep.consts['cap_s'] + 5, cap_expected=True)
+        life_stop(rep, binp, 'uds', rep.consts['cap_s'] + 3, cap_expected=True)
         life_idle_inflight(rep, binp, 'tcp', 2, 6)
     rep.rule.append('life: idle expiry and stop-with-request-in-flight against the real server; the extracted ServerLife model must '
                     'predict the observed outcome from driver-side times (before send / after exit)')
@@ -1158,7 +1257,11 @@ def check(tier, seed, replay=None):
     if okm:
         print('model: ', model_run(leg if leg in ('race', 'life', 'sched', 'cut', 'report') else 'race', [case])[0][:2000])
     bad = False
-    if leg == 'race' and rep.bin_ok:
+    if leg == 'race' and rep.bin_ok and ('[address ' in (data.get('what_fails') or '') or (case and isinstance(case[3], list))):
+        okr = do_two_addresses(rep, [], pipeline.repo_bin('sccache'), case[2])
+        bad = not okr or bool(rep.violations)
+        print('impl:   two addresses: %s' % ([v['detail'] for v in rep.violations][:2] or 'no violation'))
+    elif leg == 'race' and rep.bin_ok:
         kind = case[0].decode().replace('uds_nolock', 'uds')
         for attempt in range(5):
             okr, obs, c2 = do_race(rep, [], pipeline.repo_bin('sccache'), kind, case[2], bool(case[3]),
